@@ -20,6 +20,8 @@ func protoOrTransport(rel string) bool {
 }
 
 func runC10(p *Prog, r *Report) {
+	noGoroutineForRefusedPipe(p, r, "C10.15/no-goroutine-for-refused-pipe")
+	r.Floor("C10.15/no-goroutine-for-refused-pipe", "protocol.addpipe_goroutines", 20)
 	runSweeps(p, r, "C10.14/close-sweeps", "every loop by which a Close closes all pipes, endpoints, contexts, pending connections or blocked accepters visits every entry: none can be left early", closeSweeps)
 	r.Describe("C10.1/E4c", "every blocking select has a receive case on a channel closed by Close/RemovePipe; per-pipe goroutines wait on their own pipe's close channel")
 	e4CloseAwareSelects(p, r, "C10.1/E4c", protoOrTransport)
@@ -57,7 +59,7 @@ func c10Anchored(p *Prog, r *Report) {
 	sc := q.Fn(R, "internal/core", "socket", "Close")
 	if sc.OK() {
 		st := sc.Ev("store", "recv.closed").Arg(0, "true")
-		q.Req(R, "sets-closed", len(st) == 1 && len(st[0].Guard) == 0 && st.AllHeld(coreSockMu), st.Pos(p), "closed=true under the lock", "socket.Close does not set closed=true unconditionally under the lock")
+		q.Req(R, "sets-closed", len(st) == 1 && st[0].Unconditional() && st.AllHeld(coreSockMu), st.Pos(p), "closed=true under the lock", "socket.Close does not set closed=true unconditionally under the lock")
 		for _, c := range [][2]string{{"core.(*listener).Close", "listeners"}, {"core.(*dialer).Close", "dialers"}} {
 			ev := sc.Ev("call", c[0])
 			q.Req(R, "closes-"+c[1], len(ev) == 1 && strings.Contains(ev[0].Args[0], "recv."+c[1]+"["), ev.Pos(p), "every element of "+c[1]+" closed", "socket.Close does not close every element of s."+c[1])
@@ -133,7 +135,7 @@ func c10Anchored(p *Prog, r *Report) {
 		q.Req(R, f.Name+"/second-close-ErrClosed", len(rc) == 1 && rc[0].Args[0] == "ErrClosed", rc.Pos(p), "ErrClosed when already closed", "Close on a closed socket does not return ErrClosed")
 		st := f.Ev("store", "recv.closed").Arg(0, "true")
 		okSet := len(st) == 1 && st.AllGuarded("!recv.closed") && len(st[0].Held) > 0
-		if !okSet && len(st) == 1 && len(st[0].Guard) == 0 && len(st[0].Held) > 0 && len(rc) == 1 {
+		if !okSet && len(st) == 1 && st[0].Unconditional() && len(st[0].Held) > 0 && len(rc) == 1 {
 			// test-and-set form: `was := s.closed; s.closed = true` in one critical section,
 			// the second Close recognised by the value read before the store
 			EachInstr(fn, func(in ssa.Instruction) {
@@ -180,7 +182,7 @@ func c10Anchored(p *Prog, r *Report) {
 	if ip.OK() {
 		c := ip.Closure(R, 0)
 		cl := c.Ev("close", "close").Arg(0, "recv.closeq")
-		q.Req(R, ip.Name+"/closes-closeq-once", len(cl) == 1 && len(cl[0].Guard) == 0 && len(ip.Ev("call", "sync.(*Once).Do")) == 1, cl.Pos(p), "closeq closed once", "inproc Close does not close closeq inside once.Do")
+		q.Req(R, ip.Name+"/closes-closeq-once", len(cl) == 1 && cl[0].Unconditional() && len(ip.Ev("call", "sync.(*Once).Do")) == 1, cl.Pos(p), "closeq closed once", "inproc Close does not close closeq inside once.Do")
 	}
 
 	// ---- C10.6 timers
